@@ -40,6 +40,7 @@ from harness.c03 import (
     w_value,
     w_values,
 )
+from harness.pyprelude import PreludeKernels
 from vlib.core import Check, Stream, b01, hs, line
 
 TEXT_ALPHA = list("abcxyzABZ019") + ["é", "ü", "日", "😀", " ", ";", "?", "#", "%", "&", "=", "+", "@", ":", "!", "$", "'", "(", ")", "*", ",", "~", ".", "-", "_", "\\", '"', "<", ">", "|", "[", "]", "{", "}", "^", "`", "%41", "\t"]
@@ -515,10 +516,11 @@ class ConvStream(Stream):
 
 CHECK = Check(
     prop="C04",
-    gen=["Routing", "RoutingSamples"],
-    modules=["WzVerif.Props.C04"],
-    streams=[BuildMatchStream(), ConvStream()],
+    gen=["Routing", "RoutingSamples", "PyFns_Routing"],
+    modules=["WzVerif.Props.C04", "WzVerif.Props.C04T"],
+    streams=[BuildMatchStream(), ConvStream(), PreludeKernels()],
     assumptions=[
+        "NumberConverter.to_python / to_url are regenerated from the source by tools/py2lean.py (Gen/PyFns_Routing.lean) on every run and proved equal to the int converter of the hand model for all inputs (Props/C04T; num_convert = int enters to_python as the model's intOfText, to_url is restricted to int values); the CPython primitives the translated code calls (str(int), zfill) are modelled in Util/PyPrelude.lean and validated by stream prelude-kernels",
         "model scope: MapAdapter.build for the default converters incl. rule defaults, methods, subdomain / host_matching, script root, force_external, unknown values as query; MultiDict / list values, sort_parameters, url_scheme overrides and websocket rules are not modelled; Submount / Subdomain factories are exercised on the real side and compared with the expanded rules on the model side",
         "urllib.parse.quote / quote_plus / urlencode / unquote are hand-modelled and validated by the streams (built URLs are compared character for character); the safe= literals are collected from the source by AST (quote_safe_sets_match_source)",
         "a server's view of a built URL: scheme/host select the adapter (subdomain or host), the script root is stripped, the path is cut at '?' / '#' and percent-decoded (errors='replace')",
